@@ -68,7 +68,16 @@ func (z *Interpreter) SetExternalLibs(libs []*r.Library) *Interpreter {
 
 ///// load functions //////
 
+// clone - a copy of the interpreter that shares the (read-only) configuration
+func (z *Interpreter) clone() *Interpreter {
+	nz := *z
+	return &nz
+}
+
 func (z *Interpreter) LoadScript(source []rune) *Interpreter {
+	// work on a copy: an interpreter may be shared by concurrent requests, each of
+	// them loading its own source
+	z = z.clone()
 	// set moduleCodeFinder
 	z.moduleCodeFinder = func(isMain bool, info r.LibNameInfo) ([]rune, error) {
 		// suppose the sourceCode is the mainModule ONLY
@@ -87,6 +96,9 @@ func (z *Interpreter) LoadScript(source []rune) *Interpreter {
 }
 
 func (z *Interpreter) LoadFile(file string) *Interpreter {
+	// work on a copy: an interpreter may be shared by concurrent requests, each of
+	// them loading its own source
+	z = z.clone()
 	// set moduleCodeFinder
 	z.moduleCodeFinder = func(isMain bool, info r.LibNameInfo) ([]rune, error) {
 		// get dir & fileName -
